@@ -212,12 +212,16 @@ GROUP_MODES = ("none", "plain", "gfalse", "on", "off", "self")
 
 def all_switch_configs():
     """Every combination of the switches that decide whether None is allowed:
-    group membership / groupOptional / group enabled (6 modes) x dependency (none | bool or optional
-    parameter x checked or not x dependencyType enabled|disabled|absent) x optional present x
+    group membership / groupOptional / group enabled (6 modes) x dependency (none | controller with
+    optional absent|true x enabled absent|true|false x value true|false x dependencyType
+    enabled|disabled|absent) x optional present x
     enabled true|false|absent."""
-    deps = [dict(dep="none", dstate=None, dtype=None)]
-    for dep, dstate, dtype in itertools.product(("bool", "opt"), (True, False), ("enabled", "disabled", None)):
-        deps.append(dict(dep=dep, dstate=dstate, dtype=dtype))
+    deps = [dict(dep="none", copt=False, cen=None, cval=None, dtype=None)]
+    # the controlling parameter: a checkbox form, with every combination of its own members
+    # optional absent|true x enabled absent|true|false x value true|false
+    for copt, cen, cval, dtype in itertools.product((False, True), (None, True, False), (True, False),
+                                                    ("enabled", "disabled", None)):
+        deps.append(dict(dep="ctl", copt=copt, cen=cen, cval=cval, dtype=dtype))
     out = []
     for grp, dcfg, opt, en in itertools.product(GROUP_MODES, deps, (False, True), (None, True, False)):
         out.append(dict(grp=grp, opt=opt, en=en, **dcfg))
@@ -225,7 +229,9 @@ def all_switch_configs():
 
 
 def cfg_key(cfg) -> str:
-    d = "nodep" if cfg["dep"] == "none" else f"{cfg['dep']}={'T' if cfg['dstate'] else 'F'}/{cfg['dtype'] or 'default'}"
+    tf = {None: "-", True: "T", False: "F"}
+    d = "nodep" if cfg["dep"] == "none" else (
+        f"ctl(opt={'T' if cfg['copt'] else '-'},en={tf[cfg['cen']]},val={tf[cfg['cval']]})/{cfg['dtype'] or 'default'}")
     return f"grp={cfg['grp']},{d},opt={'T' if cfg['opt'] else '-'},en={ {None: '-', True: 'T', False: 'F'}[cfg['en']] }"
 
 
@@ -239,7 +245,10 @@ def ref_requires(cfg):
         if not group_on:
             return False, "group-unchecked"
     if cfg["dep"] != "none":
-        checked = cfg["dstate"]
+        # "The dependency parameter should be optional or boolean (i.e., has a checkbox)": the
+        # checkbox of an optional controller is its enabled state (default true), that of a plain
+        # boolean controller is its value; other members of the controller play no part.
+        checked = (cfg["cen"] is not False) if cfg["copt"] else bool(cfg["cval"])
         active = checked if (cfg["dtype"] or "enabled") == "enabled" else (not checked)
         if not active:
             return False, "dependency-unsatisfied"
@@ -255,7 +264,7 @@ def cfg_of_form(ui_json: dict, name: str = "target"):
     """Read the switch configuration back from a (current) ui.json dictionary - used by the
     history part, where the library itself has edited the form in between."""
     form = ui_json[name]
-    cfg = dict(grp="none", dep="none", dstate=None, dtype=None, opt=bool(form.get("optional", False)),
+    cfg = dict(grp="none", dep="none", copt=False, cen=None, cval=None, dtype=None, opt=bool(form.get("optional", False)),
                en=form.get("enabled", None))
     if "group" in form:
         members = [f for f in ui_json.values() if isinstance(f, dict) and f.get("group") == form["group"]]
@@ -268,10 +277,7 @@ def cfg_of_form(ui_json: dict, name: str = "target"):
             cfg["grp"] = "on" if leaders[0].get("enabled", True) else "off"
     if "dependency" in form:
         dep = ui_json[form["dependency"]]
-        if dep.get("optional", False):
-            cfg["dep"], cfg["dstate"] = "opt", bool(dep.get("enabled", True))
-        else:
-            cfg["dep"], cfg["dstate"] = "bool", bool(dep.get("value", True))
+        cfg.update(dep="ctl", copt=bool(dep.get("optional", False)), cen=dep.get("enabled", None), cval=dep.get("value", None))
         cfg["dtype"] = form.get("dependencyType", None)
     return cfg
 
@@ -299,12 +305,14 @@ def build_ui_json(fix: Fix, kind: str, cfg: dict, target_value="__form__"):
             leader.update({"groupOptional": True, "enabled": False})
         uj["leader"] = leader
         data["leader"] = "x"
-    if cfg["dep"] == "bool":
-        uj["dep"] = {"label": "dep", "value": bool(cfg["dstate"])}
-        data["dep"] = bool(cfg["dstate"])
-    elif cfg["dep"] == "opt":
-        uj["dep"] = {"label": "dep", "value": 1.5, "optional": True, "enabled": bool(cfg["dstate"])}
-        data["dep"] = 1.5
+    if cfg["dep"] != "none":
+        ctl = {"label": "dep", "value": bool(cfg["cval"])}
+        if cfg["copt"]:
+            ctl["optional"] = True
+        if cfg["cen"] is not None:
+            ctl["enabled"] = cfg["cen"]
+        uj["dep"] = ctl
+        data["dep"] = bool(cfg["cval"])
     if spec.get("parent"):
         uj["object"] = {"label": "object", "value": fix.uid["A"], "meshType": [POINTS_TYPE]}
         data["object"] = fix.ent("A")
